@@ -188,8 +188,36 @@ pub fn to_fmt_writer_with_options<W: std::fmt::Write, T: serde::Serialize>(
     mut options: SerializerOptions,
 ) -> std::result::Result<(), crate::ser::Error> {
     options.consistent()?;
-    let mut ser = crate::ser::YamlSerializer::with_options(output, &mut options);
-    value.serialize(&mut ser)
+    // As in `to_io_writer_with_options`: once the writer has refused a write nothing more is
+    // written, and the refusal is the outcome of the call even if the value's `Serialize` impl
+    // ignored the error it was given.
+    struct Fused<'a, W: std::fmt::Write> {
+        output: &'a mut W,
+        failed: bool,
+    }
+    impl<'a, W: std::fmt::Write> std::fmt::Write for Fused<'a, W> {
+        fn write_str(&mut self, s: &str) -> std::fmt::Result {
+            if self.failed {
+                return Err(std::fmt::Error);
+            }
+            let r = self.output.write_str(s);
+            self.failed = r.is_err();
+            r
+        }
+    }
+    let mut fused = Fused {
+        output,
+        failed: false,
+    };
+    let mut ser = crate::ser::YamlSerializer::with_options(&mut fused, &mut options);
+    let result = value.serialize(&mut ser);
+    if fused.failed {
+        return match result {
+            Err(e) => Err(e),
+            Ok(()) => Err(crate::ser::Error::from(std::fmt::Error)),
+        };
+    }
+    result
 }
 
 /// Serialize a value as YAML into any [`io::Write`] target, with options.
@@ -206,6 +234,12 @@ pub fn to_io_writer_with_options<W: std::io::Write, T: serde::Serialize>(
     }
     impl<'a, W: std::io::Write> std::fmt::Write for Adapter<'a, W> {
         fn write_str(&mut self, s: &str) -> std::fmt::Result {
+            // Once a write has failed nothing more goes to the writer: a `Serialize` impl may
+            // ignore the error it was given and carry on, and what reaches the writer must stay
+            // a prefix of the output.
+            if self.last_err.is_some() {
+                return Err(std::fmt::Error);
+            }
             if let Err(e) = self.output.write_all(s.as_bytes()) {
                 self.last_err = Some(e);
                 return Err(std::fmt::Error);
@@ -223,15 +257,13 @@ pub fn to_io_writer_with_options<W: std::io::Write, T: serde::Serialize>(
         last_err: None,
     };
     let mut ser = crate::ser::YamlSerializer::with_options(&mut adapter, &mut options);
-    match value.serialize(&mut ser) {
-        Ok(()) => Ok(()),
-        Err(e) => {
-            if let Some(io_error) = adapter.last_err.take() {
-                return Err(crate::ser::Error::from(io_error));
-            }
-            Err(e)
-        }
+    let result = value.serialize(&mut ser);
+    // A failed write is the outcome of the call whatever the value's `Serialize` impl made of the
+    // error it got back (it may have swallowed it and returned Ok).
+    if let Some(io_error) = adapter.last_err.take() {
+        return Err(crate::ser::Error::from(io_error));
     }
+    result
 }
 
 /// Deprecated: use `to_fmt_writer_with_options` for `fmt::Write` or `to_io_writer_with_options` for `io::Write`.
